@@ -9,6 +9,7 @@ import (
 	"encoding/json"
 	"fmt"
 	"sort"
+	"strings"
 	"time"
 
 	storetypes "cosmossdk.io/store/types"
@@ -41,6 +42,7 @@ type Replicas struct {
 	blocks  []*engine.Block
 	digests []string
 	results [][]string // per block, per tx: rendered result
+	logs    [][]string // per block, per tx: the result's log text
 	exports map[int64][]byte
 }
 
@@ -112,12 +114,31 @@ func digest(res *abci.ResponseFinalizeBlock) (string, []string) {
 	return hex.EncodeToString(h.Sum(nil)[:10]) + "/" + hex.EncodeToString(res.AppHash[:6]), txs
 }
 
+// logsOf renders the log texts of a block's transaction results. The log of a transaction
+// whose handler panicked is baseapp's, with a goroutine stack trace in it (addresses differ
+// from execution to execution): only its first line is kept.
+func logsOf(res *abci.ResponseFinalizeBlock) []string {
+	var out []string
+	for _, r := range res.TxResults {
+		l := r.Log
+		if i := strings.Index(l, "\nstack:"); i >= 0 {
+			l = l[:i]
+		}
+		if i := strings.Index(l, "goroutine "); i >= 0 {
+			l = l[:i]
+		}
+		out = append(out, l)
+	}
+	return out
+}
+
 func (m *Replicas) OnBlock(w *engine.World, blk *engine.Block, res *abci.ResponseFinalizeBlock) {
 	cp := &engine.Block{Height: blk.Height, Time: blk.Time, Txs: blk.Txs}
 	m.blocks = append(m.blocks, cp)
 	d, txs := digest(res)
 	m.digests = append(m.digests, d)
 	m.results = append(m.results, txs)
+	m.logs = append(m.logs, logsOf(res))
 	if m.cfg.ExportEvery > 0 && blk.Height%int64(m.cfg.ExportEvery) == 0 {
 		m.exportPrimary(w, blk.Height)
 	}
@@ -228,6 +249,14 @@ func (m *Replicas) replay(w *engine.World, kind string) {
 			w.Hit("fault.host_clock_skew_gt_5m")
 		}
 	}
+	if kind == "late" {
+		// another host also has another time zone setting: nothing a node computes may go
+		// through the process's local time zone
+		old := time.Local
+		time.Local = time.FixedZone("SIM", 5*3600+45*60)
+		defer func() { time.Local = old }()
+		w.Hit("fault.host_time_zone_differs")
+	}
 	rep := engine.NewNode("replica-"+kind, w.NodeOpt)
 	gt := time.Unix(w.Cfg.GenesisUnix, 0).UTC()
 	if err := rep.InitChain(w.GenesisState, gt, 1, w.Cfg.MaxGas); err != nil {
@@ -274,6 +303,16 @@ func (m *Replicas) replay(w *engine.World, kind string) {
 				"replica (%s, host clock %s later) diverged from the primary at height %d: %s; first differing store %q key %q; digests %s vs %s",
 				kind, hostSkew(kind, m.cfg.SkewNs), blk.Height, detail, store, key, m.digests[i], d)
 			return
+		}
+		// "byte-identical ... transaction results": the log text of a result is part of what a
+		// node answers for the transaction
+		w.Hit("C11.tx_log_comparisons")
+		for j, l := range logsOf(res) {
+			if j < len(m.logs[i]) && l != m.logs[i][j] {
+				w.Violate("C11", "replica-divergence/"+kind+"/tx-log", "replica (%s, host clock %s later, host time zone %s) executed height %d with the same app hash and result codes, but the log of tx %d reads %q on the primary and %q on the replica",
+					kind, hostSkew(kind, m.cfg.SkewNs), time.Local, blk.Height, j, clip(m.logs[i][j]), clip(l))
+				break
+			}
 		}
 		if err := rep.Commit(blk); err != nil {
 			m.reportReplicaError(w, kind, blk, err)
